@@ -125,6 +125,10 @@ func (t *fnTr) kindOfType(ty types.Type) string {
 			return "bools"
 		case k == "val":
 			return "vlist"
+		case k == "strs" && isArrayType(u.Elem()):
+			return "rows" // [][n]string
+		case k == "vlist" && isArrayType(u.Elem()):
+			return "vrows" // [][n]interface{}
 		case k == "xattr":
 			return "xattrs"
 		case k == "vmap":
@@ -135,6 +139,9 @@ func (t *fnTr) kindOfType(ty types.Type) string {
 	case *types.Array:
 		if t.kindOfType(u.Elem()) == "str" {
 			return "strs"
+		}
+		if t.kindOfType(u.Elem()) == "val" {
+			return "vlist"
 		}
 	case *types.Pointer:
 		if n, ok := u.Elem().(*types.Named); ok && n.Obj().Pkg() != nil && n.Obj().Pkg().Path() == "encoding/xml" && n.Obj().Name() == "Decoder" {
@@ -159,8 +166,17 @@ func (t *fnTr) kindOfType(ty types.Type) string {
 	return ""
 }
 
+func isArrayType(ty types.Type) bool {
+	_, ok := ty.Underlying().(*types.Array)
+	return ok
+}
+
 func fnCoqType(k string) string {
 	switch {
+	case k == "rows":
+		return "(list (list str))"
+	case k == "vrows":
+		return "(list (list value))"
 	case k == "bool", k == "errnil":
 		return "bool"
 	case k == "errv", k == "err":
@@ -263,6 +279,8 @@ type fnTr struct {
 	pairMemo int // 0 unknown, 1 pair result, 2 not
 	curRest  []ast.Stmt // the statements that follow the one being translated, in its list
 	sumJoin  bool       // join mode (see branching): no duplication of what follows a branching statement
+	lenient  bool       // case bodies of type switches that leave the fragment become Crash (see tryBody)
+	lenientDepth int
 	curS     string     // in join mode: the state type S of the `ctl S A` a jump currently produces
 	parents  map[ast.Node]ast.Node
 	tables  map[types.Object]string
@@ -283,8 +301,42 @@ type fnTr struct {
 
 func (t *fnTr) pos(n ast.Node) string { return t.p.fset.Position(n.Pos()).String() }
 
+type outsideFragment struct{ msg string }
+
 func (t *fnTr) unsupported(n ast.Node, what string) {
+	if t.lenientDepth > 0 {
+		panic(outsideFragment{t.pos(n) + ": " + what})
+	}
 	fail("%s: function %s uses a construct outside the translated fragment: %s", t.pos(n), t.fn.Name.Name, what)
+}
+
+// tryBody translates a case body of a type switch of a function in lenientFuncs; when the body uses a construct outside
+// the fragment it becomes `Crash` (with a comment naming the construct): the translation cannot follow the execution
+// there.  This is sound for the theorems, which show that Crash is not reached on their domain: such bodies serve
+// dynamic types outside the value universe (reflection on foreign map / struct types).
+func (t *fnTr) tryBody(f func() string) (out string) {
+	if !t.lenient {
+		return f()
+	}
+	nG, inLoop, loopEnd, breakEnd, curS, curRest := len(t.guards), t.inLoop, t.loopEnd, t.breakEnd, t.curS, t.curRest
+	esc := map[types.Object]bool{}
+	for k, v := range t.escaped {
+		esc[k] = v
+	}
+	t.lenientDepth++
+	defer func() {
+		t.lenientDepth--
+		if r := recover(); r != nil {
+			of, ok := r.(outsideFragment)
+			if !ok {
+				panic(r)
+			}
+			t.guards, t.inLoop, t.loopEnd, t.breakEnd, t.curS, t.curRest, t.escaped = t.guards[:nG], inLoop, loopEnd, breakEnd, curS, curRest, esc
+			msg := strings.ReplaceAll(strings.ReplaceAll(of.msg, "(*", "( *"), "*)", "* )")
+			out = "(Crash (* outside the translated fragment: " + msg + " *))"
+		}
+	}()
+	return f()
 }
 
 func (t *fnTr) kindOfExpr(e ast.Expr) string {
@@ -400,6 +452,9 @@ func (t *fnTr) boxVal(e ast.Expr) string {
 
 // assertPat: the constructor pattern of value for a Go type in a type assertion / type switch.
 func (t *fnTr) assertPat(ty types.Type, bind string) (pat string, kind string) {
+	if n, ok := ty.(*types.Named); ok && n.Obj().Pkg() != nil && n.Obj().Pkg().Path() == "encoding/json" && n.Obj().Name() == "Number" {
+		return "VJNum " + bind, "str"
+	}
 	switch k := t.kindOfType(ty); k {
 	case "str":
 		if b, ok := ty.Underlying().(*types.Basic); ok && b.Info()&types.IsString != 0 {
@@ -566,6 +621,30 @@ func (t *fnTr) expr(e ast.Expr) string {
 		if k == "nil" {
 			k = t.kindOfExpr(x.Y)
 		}
+		if x.Op == token.EQL || x.Op == token.NEQ {
+			// reflect.ValueOf(v).Kind() == reflect.Map / reflect.Struct for an interface{} value of the universe
+			if kc, ok := unparen(x.X).(*ast.CallExpr); ok && len(kc.Args) == 0 {
+				if ks, ok := kc.Fun.(*ast.SelectorExpr); ok && ks.Sel.Name == "Kind" {
+					if vc, ok := unparen(ks.X).(*ast.CallExpr); ok && len(vc.Args) == 1 {
+						if pk, nm, isPkg := t.pkgCall(vc); isPkg && pk == "reflect" && nm == "ValueOf" && t.kindOfExpr(vc.Args[0]) == "val" {
+							var r string
+							switch types.ExprString(x.Y) {
+							case "reflect.Map":
+								r = "(match " + t.expr(vc.Args[0]) + " with VMap _ => true | _ => false end)"
+							case "reflect.Struct":
+								r = "(let _ := " + t.expr(vc.Args[0]) + " in false)" // no value of the universe is a struct
+							default:
+								t.unsupported(e, "reflect kind test other than Map / Struct")
+							}
+							if x.Op == token.NEQ {
+								return "(negb " + r + ")"
+							}
+							return r
+						}
+					}
+				}
+			}
+		}
 		switch x.Op {
 		case token.LAND, token.LOR:
 			a := t.expr(x.X)
@@ -691,7 +770,7 @@ func (t *fnTr) expr(e ast.Expr) string {
 			// m[k] as a value: the entry, nil when there is none
 			return "(match lookup " + t.expr(x.Index) + " " + t.expr(x.X) + " with Some v_ => v_ | None => VNil end)"
 		}
-		if k != "bools" && k != "strs" && k != "vlist" && k != "str" && !strings.HasPrefix(k, "recs:") {
+		if k != "bools" && k != "strs" && k != "vlist" && k != "str" && k != "rows" && k != "vrows" && !strings.HasPrefix(k, "recs:") {
 			t.unsupported(e, "index expression")
 		}
 		i, ok := t.constInt(x.Index)
@@ -724,7 +803,7 @@ func (t *fnTr) expr(e ast.Expr) string {
 				return "(firstn (Z.to_nat " + n + ") " + base + ")"
 			}
 		}
-		if kk := t.kindOfExpr(x.X); !x.Slice3 && (kk == "vlist" || kk == "strs" || kk == "str" || strings.HasPrefix(kk, "recs:")) {
+		if kk := t.kindOfExpr(x.X); !x.Slice3 && (kk == "vlist" || kk == "strs" || kk == "str" || kk == "rows" || kk == "vrows" || strings.HasPrefix(kk, "recs:")) {
 			_, loConst := int64(0), x.Low == nil
 			if x.Low != nil {
 				_, loConst = t.constInt(x.Low)
@@ -971,6 +1050,18 @@ func (t *fnTr) call(x *ast.CallExpr) string {
 						t.guards = append(t.guards, fmt.Sprintf("if Z.ltb %s 0 then Crash else", ln))
 						return "(repeat (mk_" + k[5:] + " " + strings.Join(zs, " ") + ") (Z.to_nat " + ln + "))"
 					}
+					if k := t.kindOfExpr(x); !ok && len(x.Args) == 2 && (k == "rows" || k == "vrows") {
+						// make([][n]T, m): m arrays of n zero values
+						sl := t.p.info.Types[x].Type.Underlying().(*types.Slice)
+						arr := sl.Elem().Underlying().(*types.Array)
+						zero := "([] : str)"
+						if k == "vrows" {
+							zero = "VNil"
+						}
+						ln := t.expr(x.Args[1])
+						t.guards = append(t.guards, fmt.Sprintf("if Z.ltb %s 0 then Crash else", ln))
+						return fmt.Sprintf("(repeat (repeat %s %d) (Z.to_nat %s))", zero, arr.Len(), ln)
+					}
 					if k := t.kindOfExpr(x); !ok && len(x.Args) == 2 && (k == "strs" || k == "vlist") {
 						// make([]T, n): n zero values; Go panics when n < 0
 						ln := t.expr(x.Args[1])
@@ -1010,6 +1101,14 @@ func (t *fnTr) call(x *ast.CallExpr) string {
 		if full == "math.IsInf" {
 			argInt(1, 0)
 			return "(flt_is_inf " + t.expr(x.Args[0]) + ")"
+		}
+		if full == "fmt.Sprint" && len(x.Args) == 1 && t.kindOfExpr(x.Args[0]) == "val" {
+			// fmt.Sprint(x) of one interface{} value: its %v text
+			v := t.expr(x.Args[0])
+			t.fresh++
+			n := fmt.Sprintf("fv%d", t.fresh)
+			t.guards = append(t.guards, "match "+v+" with VMap _ | VList _ => Crash | "+n+" =>")
+			return "(go_fmt_v " + n + ")"
 		}
 		if full == "fmt.Sprintf" && len(x.Args) == 2 {
 			// fmt.Sprintf("%v", x) for an interface{} value: the text of a scalar of the universe; the %v text of maps and
@@ -1433,6 +1532,8 @@ func (t *fnTr) assigned(list []ast.Stmt) []*lvar {
 		case *ast.IndexExpr:
 			if ta, ok := unparen(l.X).(*ast.TypeAssertExpr); ok {
 				add(t.lvarOf(ta.X))
+			} else if inner, ok := unparen(l.X).(*ast.IndexExpr); ok {
+				add(t.lvarOf(inner.X))
 			} else if se, ok := unparen(l.X).(*ast.StarExpr); ok {
 				add(t.lvarOf(se.X))
 			} else if id, ok := l.X.(*ast.Ident); ok {
@@ -1462,7 +1563,7 @@ func (t *fnTr) assigned(list []ast.Stmt) []*lvar {
 								add(rl)
 							}
 						}
-						if se, ok := c.Fun.(*ast.SelectorExpr); ok && se.Sel.Name == "Write" && len(c.Args) == 1 {
+						if se, ok := c.Fun.(*ast.SelectorExpr); ok && (se.Sel.Name == "Write" || se.Sel.Name == "WriteString") && len(c.Args) == 1 {
 							if wl := t.lvarOf(se.X); wl != nil && wl.kind == "writer" {
 								add(wl)
 							}
@@ -2352,7 +2453,7 @@ func (t *fnTr) assign(x *ast.AssignStmt, next func() string) string {
 		}
 		// _, err = w.Write(p) / _, err := w.Write(p) on a writer: the bytes are appended, the error is nil (a bytes.Buffer)
 		if c, isCall := x.Rhs[0].(*ast.CallExpr); isCall {
-			if se, ok := c.Fun.(*ast.SelectorExpr); ok && se.Sel.Name == "Write" && len(c.Args) == 1 {
+			if se, ok := c.Fun.(*ast.SelectorExpr); ok && (se.Sel.Name == "Write" || se.Sel.Name == "WriteString") && len(c.Args) == 1 {
 				if wl := t.lvarOf(se.X); wl != nil && wl.kind == "writer" {
 					if a.Name != "_" {
 						t.unsupported(x, "the count returned by Write is used")
@@ -2708,6 +2809,32 @@ func (t *fnTr) assign(x *ast.AssignStmt, next func() string) string {
 		if ta, isTA := unparen(l.X).(*ast.TypeAssertExpr); isTA && ta.Type != nil {
 			return t.storeThroughAssert(x, l, ta, next)
 		}
+		if inner, isIdx := unparen(l.X).(*ast.IndexExpr); isIdx {
+			// xs[i][c] = v on a slice of arrays made by this function: cell c of row i replaced
+			xl := t.lvarOf(inner.X)
+			xid, isId := unparen(inner.X).(*ast.Ident)
+			if xl == nil || !isId || (xl.kind != "rows" && xl.kind != "vrows") || !xl.ownedMap() || t.sliceShared(t.p.info.Uses[xid]) {
+				t.unsupported(x, "nested element assignment on something other than a local slice of arrays")
+			}
+			c, okc := t.constInt(l.Index)
+			if !okc {
+				t.unsupported(x, "nested element assignment with a computed column")
+			}
+			mark := len(t.guards)
+			ix := t.expr(inner.Index)
+			var v string
+			if xl.kind == "vrows" {
+				v = t.boxVal(x.Rhs[0])
+			} else {
+				v = t.expr(x.Rhs[0])
+			}
+			t.fresh++
+			row := fmt.Sprintf("row%d", t.fresh)
+			t.guards = append(t.guards, fmt.Sprintf("if Z.ltb %s 0 then Crash else", ix))
+			t.guards = append(t.guards, fmt.Sprintf("match nth_error %s (Z.to_nat %s) with None => Crash | Some %s =>", xl.name, ix, row))
+			t.guards = append(t.guards, fmt.Sprintf("if Nat.leb (length %s) %d then Crash else", row, c))
+			return t.wrap(mark, fmt.Sprintf("let %s := lset %s (Z.to_nat %s) (lset %s %d %s) in\n  ", xl.name, xl.name, ix, row, c, v)+next())
+		}
 		if se, isStar := unparen(l.X).(*ast.StarExpr); isStar {
 			// (*p)[k] = b on a *map[string]bool out-parameter
 			pl := t.lvarOf(se.X)
@@ -2779,6 +2906,19 @@ func (t *fnTr) sliceShared(obj types.Object) bool {
 				if par.X != id {
 					shared = true
 				}
+			case *ast.SliceExpr:
+				// xs = xs[lo:hi] (re-slicing itself) is the only slicing use allowed
+				okSelf := false
+				if len(stack) >= 2 {
+					if as, isAs := stack[len(stack)-2].(*ast.AssignStmt); isAs && len(as.Lhs) == 1 && len(as.Rhs) == 1 && as.Rhs[0] == ast.Expr(par) {
+						if lid, isId := as.Lhs[0].(*ast.Ident); isId && t.p.info.Uses[lid] == obj {
+							okSelf = true
+						}
+					}
+				}
+				if !okSelf {
+					shared = true
+				}
 			case *ast.CallExpr:
 				f, isId := par.Fun.(*ast.Ident)
 				okUse := isId && f.Name == "len"
@@ -2808,6 +2948,10 @@ func (t *fnTr) sliceShared(obj types.Object) bool {
 					shared = true
 				} else if len(par.Rhs) != 1 {
 					shared = true
+				} else if sl, isSl := par.Rhs[0].(*ast.SliceExpr); isSl {
+					if sid, ok := sl.X.(*ast.Ident); !ok || t.p.info.Uses[sid] != obj {
+						shared = true
+					}
 				} else if c, ok := par.Rhs[0].(*ast.CallExpr); !ok {
 					shared = true
 				} else if f, ok := c.Fun.(*ast.Ident); !ok || f.Name != "make" {
@@ -3228,7 +3372,7 @@ func (t *fnTr) typeSwitch(x *ast.TypeSwitchStmt, rest []ast.Stmt, end func() str
 				default:
 					if it, ok := t.p.info.Types[te].Type.Underlying().(*types.Interface); ok && it.NumMethods() == 0 && len(cc.List) == 1 {
 						// case interface{}: any non-nil value (the nil interface goes to the default clause)
-						sb.WriteString("\n  | VNil => " + tr(def) + "\n  | _ => " + tr(cc.Body))
+						sb.WriteString("\n  | VNil => " + t.tryBody(func() string { return tr(def) }) + "\n  | _ => " + t.tryBody(func() string { return tr(cc.Body) }))
 						catchAll = true
 						continue
 					}
@@ -3247,11 +3391,12 @@ func (t *fnTr) typeSwitch(x *ast.TypeSwitchStmt, rest []ast.Stmt, end func() str
 				pats = append(pats, pat)
 			}
 			if len(pats) > 0 {
-				sb.WriteString("\n  | " + strings.Join(pats, " | ") + " => " + tr(cc.Body))
+				body := cc.Body
+				sb.WriteString("\n  | " + strings.Join(pats, " | ") + " => " + t.tryBody(func() string { return tr(body) }))
 			}
 		}
 		if !catchAll {
-			sb.WriteString("\n  | _ => " + tr(def))
+			sb.WriteString("\n  | _ => " + t.tryBody(func() string { return tr(def) }))
 		}
 		sb.WriteString("\n  end")
 		if len(dropped) > 0 {
@@ -3348,7 +3493,18 @@ func (t *fnTr) rangeStmt(x *ast.RangeStmt, rest []ast.Stmt, end func() string) s
 	}
 	var out string
 	switch k {
+	case "vrows":
+		out = withIndex("vlist", "(list value)")
 	case "rows":
+		if _, isTable := t.tables[func() types.Object {
+			if id, ok := x.X.(*ast.Ident); ok {
+				return t.p.info.Uses[id]
+			}
+			return nil
+		}()]; !isTable {
+			out = withIndex("strs", "(list str)")
+			break
+		}
 		if !isBlank(x.Key) {
 			t.unsupported(x, "range over a table with an index variable")
 		}
@@ -3664,12 +3820,15 @@ func constTable(p *pkgInfo, vs *ast.ValueSpec, i int) (string, bool) {
 
 // the functions translated into Pure_gen.v ("Recv.Method" for methods)
 var pureFuncs = []string{"cast", "escapeChars", "parsePath", "getSubKeyMap", "hasSubKeys", "Map.PathForKeyShortest", "valuesForKeyPath", "hasKey", "hasKeyPath", "getLeafNodes",
-	"Map.ValuesForKey", "Map.oldValuesForPath", "Map.ValuesForPath", "Map.LeafNodes", "getJson", "NewMapJsonReader", "NewMapJsonReaderRaw", "Map.Exists", "Map.ValueForPath", "Map.ValueForKey", "Map.LeafPaths", "Map.LeafValues", "valuesForArray", "Map.PathsForKey", "byteReader.ReadByte", "teeReader.ReadByte", "Maps.JsonString", "Maps.JsonStringIndent", "Maps.XmlString", "Maps.XmlStringIndent", "BeautifyXml", "Map.Copy", "Map.Json", "Map.Root", "NewMapXml", "NewMapXmlSeq", "lastKey", "xmlToMapParser", "xmlSeqToMapParser", "Map.JsonWriter", "Map.JsonWriterRaw", "Map.JsonIndentWriter", "Map.JsonIndentWriterRaw", "Map.XmlWriter", "Map.XmlIndentWriter", "MapSeq.XmlWriter", "MapSeq.XmlIndentWriter", "mapToXmlSeqIndent", "pretty.Indent", "pretty.Outdent", "elemListSeq.Less"}
+	"Map.ValuesForKey", "Map.oldValuesForPath", "Map.ValuesForPath", "Map.LeafNodes", "getJson", "NewMapJsonReader", "NewMapJsonReaderRaw", "Map.Exists", "Map.ValueForPath", "Map.ValueForKey", "Map.LeafPaths", "Map.LeafValues", "valuesForArray", "Map.PathsForKey", "byteReader.ReadByte", "teeReader.ReadByte", "Maps.JsonString", "Maps.JsonStringIndent", "Maps.XmlString", "Maps.XmlStringIndent", "BeautifyXml", "Map.Copy", "Map.Json", "Map.Root", "NewMapXml", "NewMapXmlSeq", "lastKey", "xmlToMapParser", "xmlSeqToMapParser", "Map.JsonWriter", "Map.JsonWriterRaw", "Map.JsonIndentWriter", "Map.JsonIndentWriterRaw", "Map.XmlWriter", "Map.XmlIndentWriter", "MapSeq.XmlWriter", "MapSeq.XmlIndentWriter", "mapToXmlSeqIndent", "pretty.Indent", "pretty.Outdent", "elemListSeq.Less", "marshalMapToXmlIndent"}
 
 // joinMode: functions translated in join mode (see branching): the statements after an if / switch are translated
 // once instead of into every branch.  The continuation-passing translation of the other functions is kept as it is
 // (their proofs are about that shape).
 var joinMode = map[string]bool{"mapToXmlSeqIndent": true, "marshalMapToXmlIndent": true}
+
+// lenientFuncs: functions whose type-switch case bodies may leave the fragment (see tryBody)
+var lenientFuncs = map[string]bool{"marshalMapToXmlIndent": true}
 
 // fnPrefix: the prefix of the Gallina names of translated functions ("fn_" for package mxj, "xfn_" for x2j-wrapper)
 var fnPrefix = "fn_"
@@ -3810,7 +3969,7 @@ func genPure(p *pkgInfo) string {
 			}
 			t := &fnTr{p: p, vars: byObj, fn: fn, locals: map[types.Object]*lvar{}, used: map[string]int{}, tables: tables,
 				externs: &externs, structs: structs, escaped: map[types.Object]bool{}}
-			t.sumJoin, t.curS = joinMode[qname], "unit"
+			t.sumJoin, t.curS, t.lenient = joinMode[qname], "unit", lenientFuncs[qname]
 			params := ""
 			t.stateAt = map[int]*lvar{}
 			if fobj, ok := p.info.Defs[fn.Name].(*types.Func); ok {
